@@ -11,3 +11,4 @@ import Spade.Properties.C16
 #print axioms Spade.C16_rect_metric_no_miss
 #print axioms Spade.C16_segMeetsRect_has_point
 #print axioms Spade.C16_rect_metric_exact
+#print axioms Spade.C16_rect_vertex_metric_is_spec
